@@ -85,13 +85,13 @@ fn seam_selfcheck() -> Result<(), String> {
     if count(seam::EvKind::Read) < 3 {
         return Err("reads did not go through the seam".to_owned());
     }
-    if count(seam::EvKind::Close) != 1 {
+    if count(seam::EvKind::Close) != 2 {
         return Err("close did not go through the seam".to_owned());
     }
     if res.getrandom_calls != 1 {
         return Err(format!("expected exactly 1 getrandom call for the thread's RandomState, saw {}", res.getrandom_calls));
     }
-    if res.delivered() != vec![format!("meta 18 {}", follow::FOLLOW_PATH).into_bytes(), b"first\n".to_vec(), b"second line\nthird\n".to_vec(), b"slept 1".to_vec()] {
+    if res.delivered() != vec![format!("meta 18 {} dup=true", follow::FOLLOW_PATH).into_bytes(), b"first\n".to_vec(), b"second line\nthird\n".to_vec(), b"slept 1".to_vec()] {
         return Err(format!("std reads / clock through the seam returned {:?}", res.delivered().iter().map(|d| String::from_utf8_lossy(d).into_owned()).collect::<Vec<_>>()));
     }
     if res.sleeps != 1 {
